@@ -114,6 +114,7 @@ func listsOver(coords []int, maxLen int, f func(starts, ends []int) bool) {
 }
 
 func runC16(r *core.Run) {
+	firstCallClause(r, "regions")
 	N := core.Pick(r, 3, 5)
 	r.Bound("lists", fmt.Sprintf("all ordered lists of 0..%d intervals with start,end in {-1,0,1,2}; all lists of 0..2 intervals over {MinInt,-1,0,1,MaxInt}; every position = each coordinate, +-1, 0, MinInt, MaxInt", N))
 	checkList := func(c c16List) core.Outcome {
